@@ -786,20 +786,39 @@ Proof.
   change SCMP_ERROR_MAX_PACKET_SIZE with 1232. unfold blen in *. rewrite app_length. lia.
 Qed.
 
-Lemma reply_fits_lemma local d from r :
-  gateway_inbound local d from = Ok [Sent r] \/ (exists l1 l2, gateway_inbound local d from = Ok (l1 ++ Sent r :: l2)) ->
-  blen r <= SCMP_ERROR_MAX_PACKET_SIZE.
+(** every way [gateway_inbound] can succeed *)
+Lemma gateway_inbound_inv local d from l :
+  gateway_inbound local d from = Ok l ->
+  (exists v, inbound_datagram_check d from = Ok v /\ l = [Dispatched v]) \/
+  (exists e, inbound_datagram_check d from = Err e /\
+     ((offending_is_scmp_error e = Ok true /\ l = []) \/
+      (offending_is_scmp_error e = Ok false /\
+       exists c p off, inbound_scmp_error e = Ok (c, p, off) /\
+         ((exists r, encode_scmp_reply local from c p off = Ok r /\ l = [Sent r]) \/
+          (exists ee, encode_scmp_reply local from c p off = Err ee /\ l = []))))).
 Proof.
-  assert (G : forall l, gateway_inbound local d from = Ok l -> In (Sent r) l -> blen r <= SCMP_ERROR_MAX_PACKET_SIZE).
-  { unfold gateway_inbound. intros l H Hin.
-    destruct (inbound_datagram_check d from) as [v|e|s]; try discriminate.
-    - inversion H; subst l. destruct Hin as [Hin|[]]. discriminate.
-    - destruct (inbound_scmp_error e) as [[[c p] off]| |]; try discriminate.
-      destruct (encode_scmp_reply local from c p off) as [b| |] eqn:E; try discriminate.
-      + inversion H; subst l. destruct Hin as [Hin|[]]. inversion Hin; subst b.
-        eapply encode_scmp_reply_len; eauto.
-      + inversion H; subst l. destruct Hin. }
-  intros [H|(l1 & l2 & H)]; eapply G; eauto; [left; reflexivity|apply in_elt].
+  unfold gateway_inbound, gateway_decision.
+  destruct (inbound_datagram_check d from) as [v|e|s]; cbn [obind]; try discriminate.
+  - intros H. inversion H. left. eauto.
+  - intros H. right. exists e. split; [reflexivity|].
+    destruct (offending_is_scmp_error e) as [[|]| |]; cbn [obind] in H; try discriminate.
+    + inversion H. left. auto.
+    + right. split; [reflexivity|].
+      destruct (inbound_scmp_error e) as [[[c p] off]| |]; cbn [obind] in H; try discriminate.
+      exists c, p, off. split; [reflexivity|].
+      destruct (encode_scmp_reply local from c p off) as [b| |]; cbn [obind] in H; try discriminate;
+        inversion H; eauto.
+Qed.
+
+Lemma reply_fits_lemma local d from l r :
+  gateway_inbound local d from = Ok l -> In (Sent r) l -> blen r <= SCMP_ERROR_MAX_PACKET_SIZE.
+Proof.
+  intros H Hin.
+  destruct (gateway_inbound_inv _ _ _ _ H) as [(v & _ & ->)|(e & _ & [(_ & ->)|(_ & c & p & off & _ & [(b & E & ->)|(ee & _ & ->)])])].
+  - destruct Hin as [Hin|[]]. discriminate.
+  - destruct Hin.
+  - destruct Hin as [Hin|[]]. inversion Hin; subst b. eapply encode_scmp_reply_len; eauto.
+  - destruct Hin.
 Qed.
 
 (** * No panic *)
@@ -956,20 +975,124 @@ Proof.
   eauto.
 Qed.
 
-(** a rejected datagram: exactly one reply, nothing dispatched; an accepted one: exactly one
-    dispatch, no reply; never a panic *)
+(** * Suppression of replies to SCMP error messages *)
+
+Lemma sub_cons b lo hi : lo < hi -> hi <= blen b -> sub b lo hi = byte b lo :: sub b (lo + 1) hi.
+Proof.
+  intros H1 H2. rewrite (sub_split b lo (lo + 1) hi) by lia. rewrite sub_single by lia. reflexivity.
+Qed.
+
+Section Payload.
+Variables (d : bytes) (p : path_layout).
+Hypothesis L : layout_ok d p.
+
+Lemma hdr_next_header : hv_next_header (sub d 0 (f_total d)) = Ok (byte d 4 mod 256).
+Proof.
+  pose proof (view_bounds d p L) as (B1 & B2 & B3 & B4).
+  unfold hv_next_header. change CommonHeader_NEXT_HEADER_RNG with (8 * 4 + 0, 8).
+  rewrite (rd_sub_1 d 0 (f_total d) 4 0 8) by lia.
+  change (2 ^ (8 - 0 - 8)) with 1. change (2 ^ 8) with 256. rewrite N.div_1_r, N.add_0_l. reflexivity.
+Qed.
+
+Lemma view_pkt_payload :
+  pkt_payload (f_view d) = Ok (sub d (f_total d) (f_total d + N.min (f_pl d) (blen d - f_total d))).
+Proof.
+  pose proof (view_bounds d p L) as (B1 & B2 & B3 & B4).
+  set (n := N.min (f_total d + f_pl d) (blen d)) in *.
+  unfold pkt_payload, pkt_payload_range, f_view. fold n.
+  change CommonHeader_HEADER_LEN_RNG with (8 * 5 + 0, 8).
+  rewrite (rd_sub_1 d 0 n 5 0 8) by lia. cbn [obind].
+  change (2 ^ (8 - 0 - 8)) with 1. change (2 ^ 8) with 256. rewrite N.div_1_r, N.add_0_l.
+  fold (f_total d). unfold get_unchecked at 1. rewrite blen_sub by lia. rewrite N.sub_0_r.
+  replace ((0 <=? f_total d) && (f_total d <=? n)) with true by lia. cbn [obind].
+  rewrite sub_sub by lia.
+  change CommonHeader_PAYLOAD_LEN_RNG with (8 * 6 + 0, 16).
+  rewrite (rd_sub_2 d 0 (f_total d) 6 0 16) by lia. cbn [obind].
+  change (2 ^ (16 - 0 - 16)) with 1. change (2 ^ 16) with 65536. rewrite N.div_1_r, !N.add_0_l.
+  change (6 + 1) with 7. fold (f_pl d).
+  unfold get_unchecked. rewrite blen_sub by lia. rewrite N.sub_0_r.
+  replace (N.min (f_pl d) (n - f_total d)) with (N.min (f_pl d) (blen d - f_total d)) by lia.
+  set (k := N.min (f_pl d) (blen d - f_total d)).
+  replace ((f_total d <=? f_total d + k) && (f_total d + k <=? n)) with true by lia.
+  cbn [obind fst snd]. rewrite sub_sub by lia. reflexivity.
+Qed.
+
+(** the decision of [offending_is_scmp_error] on a parsed datagram, from the datagram's bytes *)
+Definition f_is_scmp_error : bool :=
+  (byte d 4 mod 256 =? 202) && (f_total d <? blen d) && (0 <? f_pl d) && (byte d (f_total d) <? 128).
+
+Lemma offending_view e :
+  e = InvalidSourceAddress (f_view d) \/ (exists pt, e = InvalidPathType (f_view d) pt) ->
+  offending_is_scmp_error e = Ok f_is_scmp_error.
+Proof.
+  pose proof (view_bounds d p L) as (B1 & B2 & B3 & B4).
+  intros He.
+  assert (E : offending_is_scmp_error e =
+              (hdr <- pkt_header (f_view d) ;; nh <- hv_next_header hdr ;;
+               if negb (nh =? PROTO_SCMP) then Ok false else
+               pl <- pkt_payload (f_view d) ;;
+               Ok (match pl with [] => false | t :: _ => t <? SCMP_ERROR_SUPPRESS_BELOW end))).
+  { destruct He as [-> | (pt & ->)]; reflexivity. }
+  rewrite E. clear E He. rewrite (view_pkt_header d p L). cbn [obind]. rewrite hdr_next_header. cbn [obind].
+  unfold f_is_scmp_error. change PROTO_SCMP with 202. change SCMP_ERROR_SUPPRESS_BELOW with 128.
+  destruct (byte d 4 mod 256 =? 202); cbn [negb andb]; [|reflexivity].
+  rewrite view_pkt_payload. cbn [obind].
+  set (k := N.min (f_pl d) (blen d - f_total d)).
+  destruct (N.eq_dec k 0) as [K|K].
+  - rewrite K, N.add_0_r. unfold sub. rewrite N.sub_diag. change (N.to_nat 0) with 0%nat. cbn [firstn].
+    f_equal. unfold k in K. lia.
+  - rewrite sub_cons by lia. f_equal.
+    replace (f_total d <? blen d) with true by lia. replace (0 <? f_pl d) with true by lia. reflexivity.
+Qed.
+End Payload.
+
+Lemma f_is_scmp_error_spec d : bytes_ok d = true -> f_is_scmp_error d = spec_is_scmp_error d.
+Proof.
+  intros OK. unfold f_is_scmp_error, spec_is_scmp_error, spec_next_hdr.
+  rewrite (sf_total d OK), (sf_pl d OK). change (len d) with (blen d).
+  pose proof (B d OK 4). replace (byte d 4 mod 256) with (byte d 4) by lia. reflexivity.
+Qed.
+
+(** the suppression test of a rejected datagram never panics; it is false for a malformed
+    datagram and otherwise the specification's "is an SCMP error message" *)
+Lemma offending_of_check d ip e :
+  check_nf d ip = Err e ->
+  exists b, offending_is_scmp_error e = Ok b /\
+            (b = true -> bytes_ok d = true -> spec_is_scmp_error d = true).
+Proof.
+  unfold check_nf. destruct (hl_nf d) as [l|e0|s] eqn:E; try discriminate.
+  - destruct (hl_nf_ok d l E) as (L & _).
+    assert (V : forall e', e' = InvalidSourceAddress (f_view d) \/ (exists pt, e' = InvalidPathType (f_view d) pt) ->
+                exists b, offending_is_scmp_error e' = Ok b /\ (b = true -> bytes_ok d = true -> spec_is_scmp_error d = true)).
+    { intros e' He'. exists (f_is_scmp_error d). split; [apply (offending_view d _ L e' He')|].
+      intros Hb OK. rewrite <- (f_is_scmp_error_spec d OK). exact Hb. }
+    destruct (decode_ip _ _) as [a|].
+    + destruct (negb _).
+      * intros H. inversion H; subst e. apply V. left. reflexivity.
+      * destruct (path_type_accepted _); [discriminate|]. intros H. inversion H; subst e. apply V. right. eauto.
+    + intros H. inversion H; subst e. apply V. left. reflexivity.
+  - intros H. inversion H; subst e. exists false. split; [reflexivity|discriminate].
+Qed.
+
+(** accepted: exactly one dispatch; rejected: exactly one reply, or -- only when the datagram is
+    an SCMP error message -- nothing; never a panic *)
 Lemma gateway_total local d from :
   bytes_ok d = true -> ip_wf local = true -> ip_wf from = true ->
   (exists v, inbound_datagram_check d from = Ok v /\ gateway_inbound local d from = Ok [Dispatched v]) \/
-  (exists e r, inbound_datagram_check d from = Err e /\ gateway_inbound local d from = Ok [Sent r]).
+  (exists e, inbound_datagram_check d from = Err e /\
+     ((exists r, gateway_inbound local d from = Ok [Sent r]) \/
+      (spec_is_scmp_error d = true /\ gateway_inbound local d from = Ok []))).
 Proof.
-  intros OK Wl Wf. unfold gateway_inbound. rewrite check_is_nf.
-  destruct (check_nf d from) as [v|e|s] eqn:E.
+  intros OK Wl Wf. unfold gateway_inbound, gateway_decision. rewrite check_is_nf.
+  destruct (check_nf d from) as [v|e|s] eqn:E; cbn [obind].
   - left. eauto.
-  - right. destruct (scmp_error_of_check d from e E) as (c & p & off & -> & Hoff).
-    assert (Ooff : bytes_ok off = true).
-    { destruct Hoff as [-> | ->]; [exact OK|apply bytes_ok_sub, OK]. }
-    destruct (encode_scmp_reply_total local from c p off Wl Wf Ooff) as (r & ->). eauto.
+  - right. exists e. split; [reflexivity|].
+    destruct (offending_of_check d from e E) as (b & -> & Hb). destruct b.
+    + right. split; [apply Hb; auto|reflexivity].
+    + left. destruct (scmp_error_of_check d from e E) as (c & p & off & -> & Hoff).
+      assert (Ooff : bytes_ok off = true).
+      { destruct Hoff as [-> | ->]; [exact OK|apply bytes_ok_sub, OK]. }
+      destruct (encode_scmp_reply_total local from c p off Wl Wf Ooff) as (r & ->). cbn [obind decision_effects]. eauto.
   - exfalso. exact (check_nf_no_panic _ _ _ E).
 Qed.
 
@@ -1019,11 +1142,8 @@ Lemma effects_shape local d from l :
   (exists v, inbound_datagram_check d from = Ok v /\ l = [Dispatched v]) \/
   (exists e, inbound_datagram_check d from = Err e /\ ((exists r, l = [Sent r]) \/ l = [])).
 Proof.
-  unfold gateway_inbound. destruct (inbound_datagram_check d from) as [v|e|s]; try discriminate.
-  - intros H. inversion H. left. eauto.
-  - intros H. right. exists e. split; [reflexivity|].
-    destruct (inbound_scmp_error e) as [[[c p] off]| |]; try discriminate.
-    destruct (encode_scmp_reply local from c p off) as [b| |]; try discriminate; inversion H; eauto.
+  intros H.
+  destruct (gateway_inbound_inv _ _ _ _ H) as [(v & Hc & ->)|(e & Hc & [(_ & ->)|(_ & c & p & off & _ & [(b & _ & ->)|(ee & _ & ->)])])]; eauto 7.
 Qed.
 
 Lemma one_effect_lemma local d from l :
@@ -1047,10 +1167,22 @@ Qed.
 Lemma exactly_one_lemma local d from :
   bytes_ok d = true -> ip_wf local = true -> ip_wf from = true ->
   (SpecAccept d from /\ gateway_inbound local d from = Ok [Dispatched (spec_packet d)]) \/
-  (~ SpecAccept d from /\ exists r, gateway_inbound local d from = Ok [Sent r]).
+  (~ SpecAccept d from /\
+   ((exists r, gateway_inbound local d from = Ok [Sent r]) \/
+    (spec_is_scmp_error d = true /\ gateway_inbound local d from = Ok []))).
 Proof.
-  intros OK Wl Wf. destruct (gateway_total local d from OK Wl Wf) as [(v & Hc & Hg)|(e & r & Hc & Hg)].
+  intros OK Wl Wf. destruct (gateway_total local d from OK Wl Wf) as [(v & Hc & Hg)|(e & Hc & Hg)].
   - left. split; [apply (accept_iff_spec d from OK); eauto|].
     rewrite Hg. rewrite (accepted_is_packet d from v OK Hc). reflexivity.
-  - right. split; [|eauto]. intros S. apply (accept_iff_spec d from OK) in S. destruct S as (v & Hv). congruence.
+  - right. split; [|exact Hg]. intros S. apply (accept_iff_spec d from OK) in S. destruct S as (v & Hv). congruence.
+Qed.
+
+Lemma unanswered_lemma local d from :
+  bytes_ok d = true -> ip_wf local = true -> ip_wf from = true ->
+  gateway_inbound local d from = Ok [] -> spec_is_scmp_error d = true /\ ~ SpecAccept d from.
+Proof.
+  intros OK Wl Wf H. destruct (exactly_one_lemma local d from OK Wl Wf) as [(_ & G)|(S & [(r & G)|(E & _)])].
+  - congruence.
+  - congruence.
+  - auto.
 Qed.
